@@ -29,6 +29,15 @@ func genLifecycle(r *rand.Rand, quick bool) *plan.Plan {
 		k.DelayPermille = []int{10, 40}[r.IntN(2)]
 		k.DelayLen = []int{100, 600}[r.IntN(2)]
 	}
+	if r.IntN(3) == 0 {
+		// one history in three holds tasks back at every lock of the admission code (query-table and
+		// waiting-queue locks in querystatus.go): whatever else is runnable at that instant - a client starting a
+		// query, the canceller, a time-out - gets in between two steps of PullQueriesToRun / StartQuery
+		k.DelaySites = []string{"L:pkg/segment/query/querystatus.go", "W:pkg/segment/query/querystatus.go", "R:pkg/segment/query/querystatus.go"}
+		if k.DelayLen == 0 {
+			k.DelayLen = []int{30, 200}[r.IntN(2)]
+		}
+	}
 	k.PQS = &boolF
 	p := &plan.Plan{Knobs: k, Params: map[string]any{}}
 	inc := plan.Incarnation{Boot: "full", SchedSeed: r.Uint64()>>11 | 1}
@@ -72,7 +81,9 @@ func genLifecycle(r *rand.Rand, quick bool) *plan.Plan {
 			text := lifecycleTexts[r.IntN(len(lifecycleTexts))]
 			ops = append(ops, plan.Op{Kind: "query", Index: "lay", Text: text, Start: qStart, End: qEnd, Size: 500, Args: map[string]any{"qid": qid}})
 			if r.IntN(3) == 0 {
-				ops = append(ops, plan.Op{Kind: "advance", DurMs: int64([]int{1, 15, 300, 1200}[r.IntN(4)])})
+				// think times; 10/20/30 ms are multiples of the admission poll period: the client then starts
+				// its next query at the very instant PullQueriesToRun looks at the waiting queue
+				ops = append(ops, plan.Op{Kind: "advance", DurMs: int64([]int{1, 10, 20, 30, 15, 300, 1200}[r.IntN(7)])})
 			}
 		}
 		clients = append(clients, ops)
@@ -111,6 +122,11 @@ func genLifecycle(r *rand.Rand, quick bool) *plan.Plan {
 			{Kind: "ws_query", Index: "lay", Text: []string{"*", "level=error", "* | stats count by level"}[r.IntN(3)], Start: qStart, End: qEnd, Size: 500,
 				Args: map[string]any{"read": read, "hold_ms": 1000 * (2 + r.IntN(9))}}}
 		clients = append(clients, ops)
+	}
+	// admission-limit watcher (one history in three): reads the running count at every scheduling opportunity
+	// while the clients are busy
+	if r.IntN(3) == 0 {
+		clients = append(clients, []plan.Op{{Kind: "qwatch", Args: map[string]any{"iters": float64(10 + r.IntN(40)), "rounds": float64(60 + r.IntN(300))}}})
 	}
 	// monitor
 	{
@@ -195,6 +211,26 @@ func lifecycleOracle(prop string, res *RunResult) []Violation {
 				early = &s
 			} else {
 				final = &s
+			}
+		}
+		if op.Kind == "par" {
+			for ci, cl := range op.Par {
+				for qi, o := range cl {
+					if o.Kind != "qwatch" {
+						continue
+					}
+					if we := ir.Get(fmt.Sprintf("%d.%d.%d", oi, ci, qi)); we != nil && we.Phase != "invoke" {
+						var w struct {
+							MaxActive int   `json:"max_active"`
+							At        int64 `json:"at_ms"`
+							Max       int   `json:"max"`
+						}
+						_ = json.Unmarshal(we.Data, &w)
+						if w.Max > 0 && w.MaxActive > w.Max {
+							vs = append(vs, Violation{Sig: prop + ":admission-limit-exceeded", Msg: fmt.Sprintf("watcher: %d running queries with MAX_RUNNING_QUERIES=%d at %d", w.MaxActive, w.Max, w.At)})
+						}
+					}
+				}
 			}
 		}
 		if op.Kind == "query" && oi > parIdx && parIdx >= 0 {
